@@ -284,6 +284,16 @@ class Grid(GridBase):
             raise ValueError(f"export_vtk: unsupported mesh type '{mesh_type}'")
 
 
+def _axes_close(axis1, axis2):
+    """Compare two axes with a tolerance relative to the cell size (not to the magnitude of the coordinates)."""
+    axis1, axis2 = np.asarray(axis1, dtype=float), np.asarray(axis2, dtype=float)
+    if axis1.shape != axis2.shape:
+        return False
+    steps = np.abs(np.diff(axis1))
+    cell = steps.min() if steps.size > 0 and steps.min() > 0 else 1.0
+    return bool(np.allclose(axis1, axis2, rtol=1e-12, atol=1e-6 * cell))
+
+
 class StructuredGrid(Grid):
     """Abstract structured grid specification."""
 
@@ -435,7 +445,7 @@ class StructuredGrid(Grid):
         ):
             return False
 
-        return all(np.allclose(a, b) for a, b in zip(self.axes, other.axes))
+        return all(_axes_close(a, b) for a, b in zip(self.axes, other.axes))
 
     def __eq__(self, other):
         if not self.compatible_with(other):
